@@ -112,6 +112,13 @@ var verifStaged atomic.Int64
 
 func verifStagedInc() { verifStaged.Add(1) }
 
+var verifAcks atomic.Int64
+
+func verifAckInc() { verifAcks.Add(1) }
+
+// VerifAcksSent counts barrier/clear acknowledgements signalled so far (process-wide).
+func VerifAcksSent() int64 { return verifAcks.Load() }
+
 // VerifStagedCount is the number of removal notifications staged so far in this process.
 func VerifStagedCount() int64 { return verifStaged.Load() }
 
